@@ -1,5 +1,6 @@
 """C09 — ephemeris interpolation is exact at nodes and accurate between them."""
 import ast
+import json
 import math
 import os
 import re
@@ -8,7 +9,7 @@ from harness import core, py2lean, instantiate
 from harness.core import Outcome, f2b, b2f
 
 ID = "C09"
-LEAN_TARGETS = ["BeyondVerif.Props.C09", "BeyondVerif.Witness.C09"]
+LEAN_TARGETS = ["BeyondVerif.Props.C09", "BeyondVerif.Props.C09Bound", "BeyondVerif.Props.C09Ephem", "BeyondVerif.Witness.C09"]
 THEOREMS = [
     "BeyondVerif.C09.prevIdx_total",
     "BeyondVerif.C09.prevIdx_spec",
@@ -30,22 +31,59 @@ THEOREMS = [
     "BeyondVerif.C09.fresh_reachable",
     "BeyondVerif.C09.interpolate_uses_current_coordinates",
     "BeyondVerif.C09.setters_write_through",
+    "BeyondVerif.C09.callRefuses_iff",
+    "BeyondVerif.C09.lagrangeRefuses_iff",
+    "BeyondVerif.C09.linearSlice_eq",
+    "BeyondVerif.C09.linearFormula_eq",
+    "BeyondVerif.C09.lagrangeFormula_eq",
+    "BeyondVerif.C09.lagrangeFormula_refuses",
+    "BeyondVerif.C09.prevIdx_at_node",
+    "BeyondVerif.C09.prevIdx_last_node",
+    "BeyondVerif.C09.interp_linear_last_node",
+    "BeyondVerif.C09.rolle_iter",
+    "BeyondVerif.C09.lagrange_remainder",
+    "BeyondVerif.C09.nodal_prod_bound",
+    "BeyondVerif.C09.lagrange_remainder_steps",
+    "BeyondVerif.C09.interp_lagrange_error_bound",
+    "BeyondVerif.C09.circular_bound_order8",
+    "BeyondVerif.C09.smooth_orbit_within_cm_partial",
+    "BeyondVerif.C09.ephem_glue_pinned",
+    "BeyondVerif.C09.iter_yields_pinned",
+    "BeyondVerif.C09.interpolate_result_is_new",
+    "BeyondVerif.C09.getitem_is_recorded",
+    "BeyondVerif.C09.mutate_new_object_noop",
+    "BeyondVerif.C09.history_ignores_modified_replies",
+    "BeyondVerif.C09.reply_function_of_current_values",
     "BeyondVerif.C09W.stale_scenario_now_consistent",
+    "BeyondVerif.C09W.alias_mutation_not_refreshed",
 ]
-LEVEL_TEXT = ("Lean theorems over R about a model of Interp (_prev_idx slicing search, the start/stop window arithmetic translated from interp.py on every run, "
-              "Python slicing, the Lagrange and linear formulas) and of Ephem.interpolate: for every strictly increasing table, every order >= 2 (even and odd), "
-              "every length >= order and every abscissa of [first, last] the call returns the Lagrange interpolant on `order` consecutive rows containing the "
-              "bracketing interval (both end intervals included); that value is Mathlib's Lagrange.interpolate, hence exact at nodes and exact on polynomials of "
-              "degree < order; linear interpolation is exact at nodes and on piecewise-linear data; abscissae outside and tables shorter than the order give an "
-              "error, never a value; the result carries the form/frame of the ephemeris and the requested date, and after any history of interpolations and "
-              "frame/form changes its coordinates are interpolated from the current points. Model tied to the real classes by an exact / "
-              "1e-10 differential correspondence (prev_idx, window recovered from one-hot ordinates, whole calls, Ephem sequences).")
-LEVEL_NOTE = ("R -> double gap covered only by the correspondence; 'within centimetres on a smooth orbit' is checked by the oracle only; Lean kernel + propext/Classical.choice/Quot.sound; py2lean translator and harness trusted")
-TECHNIQUE = ("Lean 4 proof (induction over the binary search, omega on the window arithmetic regenerated from the Python AST, Mathlib Lagrange.interpolate / "
-             "eq_interpolate) + exact differential correspondence of the executable model with Interp / Ephem")
+LEVEL_TEXT = ("Lean theorems over R about a model of Interp and of Ephem around it. Translated from the Python AST on every run: the start/stop window arithmetic, "
+              "the guard `len(ys) != order`, the Lagrange formula itself (the numpy chain tile/reshape/diag/repeat/~identity/mask/-, / /prod(axis=1)/@, by a dedicated "
+              "extractor that refuses every other shape; `lagrangeFormula_eq` proves the translated term equal to the textbook sum_j y_j prod_{m != j} (x - x_m)/(x_j - x_m)), "
+              "the slice bounds and formula of _linear, the range test of __call__, DEFAULT_ORDER, and the statements of the small Ephem / DatedInterp methods (pinned). "
+              "Hand-written: the _prev_idx loop, Python slicing, the meaning of each numpy operation, the Ephem state machine. "
+              "Theorems: for every strictly increasing table, every order >= 2 (even and odd), every length >= order and every abscissa of [first, last] the call returns the "
+              "Lagrange interpolant on `order` consecutive rows containing the bracketing interval (both end intervals included); that value is Mathlib's Lagrange.interpolate, "
+              "hence exact at nodes and on polynomials of degree < order; the classical remainder bound |p(x) - f(x)| <= max|f^(k)| H^k / (4k) for that window (steps <= H, "
+              "uniform or not, ends of the table included) with the instance 'circular orbit up to GEO, order 8, step <= period/100: every coordinate within 1 mm'; linear "
+              "interpolation is exact at nodes — the last one included (_prev_idx at a node is the node before) — and on piecewise-linear data; abscissae outside and tables "
+              "shorter than the order give an error, never a value; Ephem as a state machine over (points with identities, method, order, interpolator's array): replies of "
+              "interpolate/propagate are new objects, ephem[i] is the recorded one, and for every history of interpolations, propagations, index reads, frame/form changes, "
+              "order/method settings and in-place modifications by the caller of objects it received, each reply is the interpolation of the current points with the current "
+              "method and order, labelled with the current first point's frame and form and the requested date. Model tied to the real classes by an exact / 1e-10 "
+              "differential correspondence (prev_idx, window recovered from one-hot ordinates, whole calls, Ephem operation histories incl. object identity).")
+LEVEL_NOTE = ("R -> double gap covered only by the correspondence; the centimetre clause is proved for circular orbits (derivative bound omega^k r), for eccentric Keplerian "
+              "motion the general bound awaits a bound of the 8th derivative — oracle there; Lean kernel + propext/Classical.choice/Quot.sound; extractors and harness trusted")
+TECHNIQUE = ("Lean 4 proof (induction over the binary search, omega on the window arithmetic regenerated from the Python AST, list algebra turning the translated numpy chain into "
+             "the textbook formula, Mathlib Lagrange.interpolate / eq_interpolate, iterated Rolle for the remainder, induction over operation histories) + exact differential "
+             "correspondence of the executable model with Interp / Ephem, sequences on one object included")
 TRUSTED = [
-    "harness/py2lean.py + harness/props/C09.py:window_source: translate the start/stop statements of Interp._lagrange (and Ephem.DEFAULT_ORDER) into Generated/InterpWin{F,R}.lean on every run",
-    "lean/templates/Interp.tpl (hand-written: _prev_idx, Python slice semantics, Lagrange / linear formulas, __call__ / __init__ checks, Ephem state with cached ordinates), tied by the correspondence run",
+    "harness/py2lean.py + harness/props/C09.py:window_source / formula_source (class NpTr: the numpy idiom of _lagrange, typed, A-normal form, refuses unknown shapes) / ephem_source: "
+    "translate interp.py and ephem.py into Generated/InterpWin{F,R}.lean, Generated/InterpLag{F,R}.lean, Generated/EphemSrc.lean on every run",
+    "lean/templates/NpArr.tpl (hand-written meaning of np.tile, reshape, diag, repeat(axis=0), identity(dtype=bool), ~, boolean-mask selection, broadcast - and /, prod(axis), @ on lists), "
+    "tied to numpy by the correspondence (whole calls run the translated formula in the driver)",
+    "lean/templates/Interp.tpl (hand-written: _prev_idx loop, Python slice semantics, __init__ checks and the method dispatch — extraction refuses when the text of these functions changes — "
+    "and the Ephem state machine Eph / EphH: sorted points with identities, method, order, the interpolator's own array, refreshed by the frame/form setters), tied by the correspondence run",
     "numpy double arithmetic vs R: linear values compared bit for bit, Lagrange values to 1e-10 of sum_j |l_j y_j| (BLAS summation order)",
 ]
 ASSUMPTIONS = [
@@ -53,21 +91,30 @@ ASSUMPTIONS = [
     "abscissae strictly increasing (Interp.__init__ enforces it; Ephem sorts its points and two points with equal dates make every interpolation raise ValueError)",
     "order >= 1 in the correspondence (order 0 or negative is not modelled); the property quantifies over orders 2..12, the theorems over every order >= 2",
     "dates are compared through Date._mjd (a double, 0.6 us resolution at today's MJD): query dates closer than that to a table end are not distinguished from it",
+    "history theorems quantify over callers that modify in place only objects the ephemeris created for them (replies of interpolate / propagate / iter) or the whole ephemeris through "
+    "Ephem.frame / Ephem.form; `ephem[i]` and `for p in ephem` hand out the recorded points themselves (by design: the setters use it) and converting one of them in place is not seen by an "
+    "interpolator that exists already (model: EphH.mutate, witness C09W.alias_mutation_not_refreshed, replayed on the real class by the `W` operations of the correspondence)",
+    "remainder bound: the function interpolated is k times differentiable on R with |f^(k)| <= M on the table's range (derivative chain F 0 = f, F (i+1) = (F i)')",
 ]
 NOT_COVERED = [
-    "'for a smooth orbit sampled at a step well below its period the interpolated position is within centimetres': an approximation bound for a class of functions; oracle only "
+    "'within centimetres for a smooth orbit': proved for circular orbits only (smooth_orbit_within_cm_partial: order 8, step <= period/100, radius <= 43 000 km: 1 mm per coordinate, over R); "
+    "for eccentric Keplerian motion (no explicit bound of the 8th time derivative formalised) and for the rounding in doubles: oracle only "
     "(Keplerian orbits e <= 0.05, step = period/100..200, orders 7..10, uniform and jittered: <= 5 cm at every position incl. first/last interval)",
 ]
 OPEN = [
-    "the Lagrange formula itself (tile/repeat/mask/prod/@ in numpy) is hand-modelled in the template and tied by correspondence only, not translated from the AST",
+    "the _prev_idx while-loop, Python slicing and Interp.__init__ are hand-modelled (tied by exact correspondence; extraction refuses when their source text changes) — not translated",
+    "a bound of the derivatives of eccentric Keplerian motion, to instantiate interp_lagrange_error_bound beyond circular orbits",
 ]
 RULE = ("correspondence: random tables (length 1..40, order none/1..12, uniform / jittered / MJD abscissae, 1-D and 2-D ordinates, non-increasing and length-mismatched variants), "
         "abscissae at nodes, inside every kind of interval (first, last, interior, one ulp from a node), one ulp outside, far outside, NaN: Interp._prev_idx exact; "
-        "window recovered from the real code by interpolating one-hot ordinates, exact; whole calls (error kind exact, linear bit-exact, Lagrange rtol 1e-10); "
-        "Ephem objects (shuffled construction, default method/order, heterogeneous labels, interpolate / set form or frame / set order or method / interpolate sequences) vs the Lean model; "
+        "window recovered from the real code by interpolating one-hot ordinates, exact; whole calls (error kind exact, linear bit-exact, Lagrange rtol 1e-10 — the driver runs the translated numpy chain); "
+        "Ephem objects (shuffled construction, default method/order, heterogeneous labels) under random operation histories of length 2..6 on ONE object: interpolate / propagate / iter(dates=) / "
+        "iter(start, stop, step) / ephem[i] (negative and out-of-range indices) / in-place modification (values, form, frame) of an object received earlier — new or recorded — / order and method setters / "
+        "frame and form setters, query dates expressed in UTC, TAI, TT, GPS: reply kind, identity (new object vs recorded point), form, frame, date exact, coordinates 1e-10; "
         "non-trivial = the call returns a value; distinct = distinct request line. "
         "oracle: node exactness, polynomial reproduction (1e-7), piecewise-linear reproduction, refusal outside / too short, labels, stale-cache scenario, "
         "query dates in other time scales (TAI/TT/GPS/UTC exact, UT1/TDB to 2 us) with real EOP tables, order/method setters on live ephemerides and interpolators vs fresh ones, "
+        "every API that computes a point (interpolate, propagate, iter(dates), iter(step), iter(), ephem()) hands out a new object and modifying it in place changes neither the table nor later answers, "
         "cm accuracy on Keplerian orbits, all on the real API")
 
 INTERP_PY = os.path.join(core.REPO, "beyond", "utils", "interp.py")
@@ -127,10 +174,315 @@ def default_order_source():
     raise py2lean.Untranslatable("Ephem.DEFAULT_ORDER not found")
 
 
+def body_of(fn):
+    """statements of a function without its docstring"""
+    return [s for s in fn.body if not (isinstance(s, ast.Expr) and isinstance(s.value, ast.Constant))]
+
+
+class NpTr:
+    """Dedicated translator for the numpy idiom of `Interp._lagrange` (tile / reshape / diag / repeat / identity / boolean mask /
+    broadcast - and / / prod / @): straight-line assignments ending in a `return`, every sub-expression typed
+    (S scalar, I integer, V 1-D array, M 2-D array, B 2-D boolean mask) and bound by one `let … ←` of an operation of
+    lean/templates/NpArr.tpl (A-normal form in the Option monad, `none` = numpy refuses the shapes).
+    Refuses (Untranslatable) every expression, keyword or type combination that is not listed here."""
+
+    def __init__(self, env):
+        self.env = dict(env)        # python name -> (lean atom, type)
+        self.lines = []
+        self.k = 0
+
+    def bind(self, text, typ, name=None):
+        if name is None:
+            self.k += 1
+            name = f"t{self.k}"
+        self.lines.append(f"let {name} ← {text}")
+        return name, typ
+
+    def int_expr(self, e):
+        if isinstance(e, ast.Attribute) and ast.unparse(e) == "self.order":
+            return "order"
+        if isinstance(e, ast.Constant) and isinstance(e.value, int) and not isinstance(e.value, bool):
+            return f"({e.value} : Int)"
+        if isinstance(e, ast.BinOp) and isinstance(e.op, (ast.Add, ast.Sub, ast.Mult)):
+            op = {ast.Add: "+", ast.Sub: "-", ast.Mult: "*"}[type(e.op)]
+            return f"({self.int_expr(e.left)} {op} {self.int_expr(e.right)})"
+        raise py2lean.Untranslatable("not an integer expression of the Lagrange formula: " + ast.unparse(e))
+
+    def kw(self, call, allowed):
+        got = {k.arg: ast.unparse(k.value) for k in call.keywords}
+        if got != allowed:
+            raise py2lean.Untranslatable(f"keywords of {ast.unparse(call)}: {got}, known shape has {allowed}")
+
+    def expr(self, e):
+        if isinstance(e, ast.Name):
+            if e.id not in self.env:
+                raise py2lean.Untranslatable("unknown name in the Lagrange formula: " + e.id)
+            return self.env[e.id]
+        if isinstance(e, ast.Call):
+            f = e.func
+            d = ast.unparse(f)
+            if d == "np.tile" and len(e.args) == 2:
+                self.kw(e, {})
+                a, t = self.expr(e.args[0])
+                if t == "V":
+                    return self.bind(f"npTile {a} {self.int_expr(e.args[1])}", "V")
+            elif d == "np.diag" and len(e.args) == 1:
+                self.kw(e, {})
+                a, t = self.expr(e.args[0])
+                if t == "M":
+                    return self.bind(f"npDiag {a}", "V")
+            elif d == "np.repeat" and len(e.args) == 2:
+                self.kw(e, {"axis": "0"})
+                a, t = self.expr(e.args[0])
+                if t == "V":
+                    return self.bind(f"npRepeat0 {a} {self.int_expr(e.args[1])}", "V")
+            elif d == "np.identity" and len(e.args) == 1:
+                self.kw(e, {"dtype": "bool"})
+                return self.bind(f"npIdentityBool {self.int_expr(e.args[0])}", "B")
+            elif isinstance(f, ast.Attribute) and f.attr == "reshape" and len(e.args) == 2:
+                self.kw(e, {})
+                a, t = self.expr(f.value)
+                if t == "V":
+                    return self.bind(f"npReshape2 {a} {self.int_expr(e.args[0])} {self.int_expr(e.args[1])}", "M")
+            elif isinstance(f, ast.Attribute) and f.attr == "prod" and len(e.args) == 0:
+                got = {k.arg: ast.unparse(k.value) for k in e.keywords}
+                a, t = self.expr(f.value)
+                if t == "M" and got in ({"axis": "1"}, {"axis": "0"}):
+                    return self.bind(f"npProdAxis{got['axis']} {a}", "V")
+            raise py2lean.Untranslatable("call not in the known shape of the Lagrange formula: " + ast.unparse(e))
+        if isinstance(e, ast.UnaryOp) and isinstance(e.op, ast.Invert):
+            a, t = self.expr(e.operand)
+            if t == "B":
+                return self.bind(f"npNotB {a}", "B")
+        if isinstance(e, ast.Subscript):
+            a, t = self.expr(e.value)
+            m, tm = self.expr(e.slice)
+            if (t, tm) == ("M", "B"):
+                return self.bind(f"npMask2 {a} {m}", "V")
+        if isinstance(e, ast.BinOp):
+            a, ta = self.expr(e.left)
+            b, tb = self.expr(e.right)
+            table = {(ast.Sub, "S", "V"): "npSubSV", (ast.Sub, "V", "S"): "npSubVS", (ast.Sub, "V", "V"): "npSubVV",
+                     (ast.Div, "V", "V"): "npDivVV", (ast.Mult, "V", "V"): "npMulVV", (ast.MatMult, "V", "M"): "npVecMat"}
+            op = table.get((type(e.op), ta, tb))
+            if op is not None:
+                return self.bind(f"{op} {a} {b}", "V")
+        raise py2lean.Untranslatable("expression not in the known shape of the Lagrange formula: " + ast.unparse(e))
+
+    def run(self, stmts):
+        for s in stmts[:-1]:
+            if not (isinstance(s, ast.Assign) and len(s.targets) == 1 and isinstance(s.targets[0], ast.Name)):
+                raise py2lean.Untranslatable("statement not in the known shape of the Lagrange formula: " + ast.unparse(s))
+            a, t = self.expr(s.value)
+            name = py2lean.lname(s.targets[0].id)
+            self.lines.append(f"let {name} := {a}")
+            self.env[s.targets[0].id] = (name, t)
+        last = stmts[-1]
+        if not (isinstance(last, ast.Return) and last.value is not None):
+            raise py2lean.Untranslatable("the Lagrange formula does not end with a return")
+        a, t = self.expr(last.value)
+        if t != "V":
+            raise py2lean.Untranslatable("the Lagrange formula does not return a 1-D array")
+        return "\n".join(self.lines + [f"pure {a}"])
+
+
+def formula_source():
+    """`Interp._lagrange` after the slicing: the guard `len(ys) != self.order` and the numpy formula, translated;
+    `Interp._linear`: slice bounds and formula; `Interp.__call__`: the range test and the dispatch (pinned)."""
+    tree = ast.parse(open(INTERP_PY).read())
+    fn = py2lean.find_function(tree, "Interp._lagrange")
+    stmts = body_of(fn)
+    i = next((k for k, s in enumerate(stmts) if ast.unparse(s) == "xs = self.xs[start:stop]"), None)
+    if i is None or ast.unparse(stmts[i + 1]) != "ys = self.ys[start:stop]":
+        raise py2lean.Untranslatable("_lagrange: the window is no longer taken as xs = self.xs[start:stop]; ys = self.ys[start:stop]")
+    g = stmts[i + 2]
+    if not (isinstance(g, ast.If) and not g.orelse and len(g.body) == 1 and isinstance(g.body[0], ast.Raise)
+            and ast.unparse(g.body[0].exc.func) == "ValueError"):
+        raise py2lean.Untranslatable("_lagrange: no `if <test>: raise ValueError` after the slicing: " + ast.unparse(g)[:80])
+    test = py2lean.Tr(consts={"self.order": "order"}).expr(_Len().visit(g.test))
+    test = re.sub(r"\bR\b", "Int", test)
+    out = ("/-- the test of `if len(ys) != self.order: raise ValueError` in Interp._lagrange (translated from the source) -/\n"
+           f"def lagrangeRefuses (nys order : Int) : Bool := decide {test}\n\n")
+    tr = NpTr({"xs": ("xs", "V"), "ys": ("ys", "M"), "x": ("x", "S")})
+    body = tr.run(stmts[i + 3:])
+    out += ("/-- the Lagrange formula of Interp._lagrange on the selected window (translated from the source, statement by statement;\n"
+            "every `let … ←` is one numpy operation of Model/NpArr) -/\n"
+            "def lagrangeFormula (order : Int) (xs : List R) (ys : List (List R)) (x : R) : Option (List R) := do\n"
+            + py2lean.indent(body) + "\n\n")
+    # _linear
+    fl = body_of(py2lean.find_function(tree, "Interp._linear"))
+    txt = [ast.unparse(s) for s in fl]
+    if len(fl) != 4 or txt[0] != "prev_idx = self._prev_idx(x)" or not isinstance(fl[3], ast.Return):
+        raise py2lean.Untranslatable("_linear: unknown shape: " + " ; ".join(txt)[:200])
+    bounds = []
+    for s, (a, b), arr in ((fl[1], ("x0", "x1"), "self.xs"), (fl[2], ("y0", "y1"), "self.ys")):
+        ok = (isinstance(s, ast.Assign) and ast.unparse(s.targets[0]) == f"({a}, {b})" and isinstance(s.value, ast.Subscript)
+              and ast.unparse(s.value.value) == arr and isinstance(s.value.slice, ast.Slice) and s.value.slice.step is None
+              and s.value.slice.lower is not None and s.value.slice.upper is not None)
+        if not ok:
+            raise py2lean.Untranslatable("_linear: unknown shape of " + ast.unparse(s))
+        itr = py2lean.Tr()
+        bounds.append("(" + re.sub(r"\bR\b", "Int", itr.expr(s.value.slice.lower)) + ", " + re.sub(r"\bR\b", "Int", itr.expr(s.value.slice.upper)) + ")")
+    if bounds[0] != bounds[1]:
+        raise py2lean.Untranslatable("_linear: abscissae and ordinates are sliced differently")
+    out += ("/-- bounds of the two-point slices `self.xs[…:…]`, `self.ys[…:…]` of Interp._linear (translated) -/\n"
+            f"def linearSlice (prev_idx : Int) : Int × Int := {bounds[0]}\n\n")
+    out += ("/-- the value returned by Interp._linear, per component (translated) -/\n"
+            f"def linearFormula (x x0 x1 y0 y1 : R) : R :=\n  {py2lean.Tr().expr(fl[3].value)}\n\n")
+    # __call__
+    fc = body_of(py2lean.find_function(tree, "Interp.__call__"))
+    if len(fc) != 3 or not (isinstance(fc[0], ast.If) and not fc[0].orelse and len(fc[0].body) == 1 and isinstance(fc[0].body[0], ast.Raise)
+                            and ast.unparse(fc[0].body[0].exc.func) == "ValueError"):
+        raise py2lean.Untranslatable("__call__: does not start with `if <range test>: raise ValueError` followed by the dispatch: "
+                                     + " ; ".join(ast.unparse(s)[:60] for s in fc))
+    rng_test = py2lean.Tr(consts={"self.xs[0]": "x0", "self.xs[-1]": "xl"}).expr(fc[0].test)
+    dispatch = " ; ".join(" ".join(ast.unparse(s).split()) for s in fc[1:])
+    if dispatch != CALL_DISPATCH:
+        raise py2lean.Untranslatable("__call__: the dispatch on the method is no longer the one the model describes: " + dispatch[:200])
+    out += ("/-- the range test of Interp.__call__ (`x0 = self.xs[0]`, `xl = self.xs[-1]`), translated; a `true` raises ValueError -/\n"
+            f"def callRefuses (x0 xl x : R) : Bool := decide {rng_test}\n")
+    # hand-modelled parts of interp.py: the model is claimed for exactly these texts
+    for qn, want in PINNED.items():
+        got = " ; ".join(" ".join(ast.unparse(s).split()) for s in body_of(py2lean.find_function(tree, qn)))
+        if got != want:
+            raise py2lean.Untranslatable(f"{qn} is no longer the text the hand-written model (lean/templates/Interp.tpl) describes: {got[:300]}")
+    return out
+
+
+class _Len(ast.NodeTransformer):
+    """`len(ys)` -> nys"""
+
+    def visit_Call(self, n):
+        if isinstance(n.func, ast.Name) and n.func.id == "len" and ast.unparse(n.args[0]) == "ys":
+            return ast.copy_location(ast.Name("nys", ast.Load()), n)
+        return self.generic_visit(n)
+
+
+CALL_DISPATCH = ("if self.method == self.LINEAR: func = self._linear elif self.method == self.LAGRANGE: func = self._lagrange "
+                 "else: raise ValueError('Unknown interpolation method', self.method) ; return func(x)")
+
+# functions whose model is hand-written (loops, constructors): extraction refuses when their text changes
+PINNED = {
+    "Interp._prev_idx": "prev_idx = 0 ; xs = self.xs ; while True: l = len(xs) if l == 1: break k = l // 2 if x > xs[k]: prev_idx += k xs = xs[k:] else: xs = xs[:k] ; return prev_idx",
+    "Interp.__init__": ("method = method.lower() ; if method == self.LAGRANGE and order is None: raise TypeError('An order shall be defined for a Lagrange interpolation') ; "
+                        "self.order = order ; if not all((x0 < x1 for x0, x1 in zip(xs, xs[1:]))): raise ValueError('xs is not monotonically increasing') ; "
+                        "self.xs = np.asarray(xs) ; self.ys = np.asarray(ys) ; self.method = method"),
+    "DatedInterp.__init__": "self.dates = dates ; xs = np.asarray([x._mjd for x in dates]) ; super().__init__(xs, ys, method, order)",
+}
+
+
+def ephem_source():
+    """The glue of Ephem around the interpolator, read from the AST into string tables (Generated/EphemSrc.lean) that
+    theorems of Props/C09.lean pin with `decide`: what `interpolate` returns, that `propagate` is `interpolate`, which
+    instant DatedInterp evaluates at, what the frame/form setters do and in which order, what `iter` yields."""
+    tree = ast.parse(open(EPHEM_PY).read())
+    itree = ast.parse(open(INTERP_PY).read())
+
+    def flat(qn, t=tree, deco=None):
+        cls, name = qn.split(".")
+        c = py2lean.find_function(t, cls)
+        for s in c.body:
+            if isinstance(s, ast.FunctionDef) and s.name == name:
+                d = [ast.unparse(x) for x in s.decorator_list]
+                if (deco is None and not any(x.endswith(".setter") for x in d)) or (deco is not None and deco in d):
+                    return [" ".join(ast.unparse(x).split()) for x in body_of(s)]
+        raise py2lean.Untranslatable(f"{qn} ({deco}) not found")
+
+    facts = {
+        "interpolateBody": flat("Ephem.interpolate"),
+        "propagateBody": flat("Ephem.propagate"),
+        "interpProperty": flat("Ephem.interp", deco="property"),
+        "frameSetter": flat("Ephem.frame", deco="frame.setter"),
+        "formSetter": flat("Ephem.form", deco="form.setter"),
+        "refreshInterp": flat("Ephem._refresh_interp"),
+        "orderSetter": flat("Ephem.order", deco="order.setter"),
+        "methodSetter": flat("Ephem.method", deco="method.setter"),
+        "orderGetter": flat("Ephem.order", deco="property"),
+        "methodGetter": flat("Ephem.method", deco="property"),
+        "frameGetter": flat("Ephem.frame", deco="property"),
+        "formGetter": flat("Ephem.form", deco="property"),
+        "initBody": flat("Ephem.__init__"),
+        "getitemBody": flat("Ephem.__getitem__"),
+        "nextBody": flat("Ephem.__next__"),
+    }
+    # DatedInterp.__call__: the abscissa handed to Interp.__call__
+    call = py2lean.find_function(itree, "DatedInterp.__call__")
+    sup = [n for n in ast.walk(call) if isinstance(n, ast.Call) and ast.unparse(n.func) == "super().__call__"]
+    if len(sup) != 1 or len(sup[0].args) != 1:
+        raise py2lean.Untranslatable("DatedInterp.__call__: not exactly one super().__call__(…)")
+    facts["datedAbscissa"] = [ast.unparse(sup[0].args[0])]
+    # every `yield` of iter / _iter_backward: where the yielded object comes from
+    ys = []
+    for qn in ("Ephem.iter", "Ephem._iter_backward"):
+        fn = py2lean.find_function(tree, qn)
+
+        def walk(stmts, defs):
+            defs = dict(defs)
+            for s in stmts:
+                if isinstance(s, ast.Assign) and len(s.targets) == 1 and isinstance(s.targets[0], ast.Name):
+                    defs[s.targets[0].id] = ast.unparse(s.value)
+                if isinstance(s, ast.For):
+                    d2 = dict(defs)
+                    if isinstance(s.target, ast.Name):
+                        d2[s.target.id] = "in " + ast.unparse(s.iter)
+                    walk(s.body, d2)
+                    continue
+                if isinstance(s, ast.While):
+                    # assignments of the loop body are visible at every yield of the body
+                    d2 = dict(defs)
+                    for x in s.body:
+                        if isinstance(x, ast.Assign) and len(x.targets) == 1 and isinstance(x.targets[0], ast.Name):
+                            d2[x.targets[0].id] = ast.unparse(x.value)
+                    walk(s.body, d2)
+                    continue
+                if isinstance(s, ast.If):
+                    walk(s.body, defs)
+                    walk(s.orelse, defs)
+                    continue
+                if isinstance(s, ast.Expr) and isinstance(s.value, ast.Yield):
+                    v = s.value.value
+                    if isinstance(v, ast.Name):
+                        ys.append(f"{qn.split('.')[1]}: {v.id} = {defs.get(v.id, '?')}")
+                    else:
+                        ys.append(f"{qn.split('.')[1]}: {ast.unparse(v)}")
+                elif isinstance(s, ast.Expr) and isinstance(s.value, ast.YieldFrom):
+                    ys.append(f"{qn.split('.')[1]}: from {ast.unparse(s.value.value.func)}")
+                elif any(isinstance(n, (ast.Yield, ast.YieldFrom)) for n in ast.walk(s)):
+                    raise py2lean.Untranslatable(f"{qn}: a yield in a statement shape that is not known: {ast.unparse(s)[:80]}")
+        walk(body_of(fn), {})
+    facts["iterYields"] = ys
+
+    def lit(v):
+        return "[" + ", ".join(json.dumps(x, ensure_ascii=False) for x in v) + "]"
+    out = ("/- GENERATED by harness/props/C09.py from beyond/orbits/ephem.py and beyond/utils/interp.py — do not edit.\n"
+           "The statements (whitespace-normalised) of the small methods of Ephem around the interpolator; pinned by\n"
+           "`decide`d theorems in Props/C09.lean, so that a change of any of them is noticed by the build. -/\n"
+           "namespace BeyondVerif.EphemSrc\n\n")
+    for k, v in facts.items():
+        out += f"def {k} : List String := {lit(v)}\n\n"
+    out += "end BeyondVerif.EphemSrc\n"
+    return out
+
+
 def extract(ctx):
-    body = window_source() + "\n" + default_order_source()
-    ch = py2lean.instantiate(core.LEAN, "InterpWin", body, "beyond/utils/interp.py (Interp._lagrange window) and beyond/orbits/ephem.py (DEFAULT_ORDER)")
+    """every generated file is rewritten independently of the others (a part of the source the translators refuse must not
+    leave the other files stale); the first refusal is raised at the end"""
+    ch, errors = [], []
+
+    def part(fn):
+        try:
+            ch.extend(fn() or [])
+        except Exception as e:  # noqa
+            errors.append(e)
+    part(lambda: py2lean.instantiate(core.LEAN, "InterpWin", window_source() + "\n" + default_order_source(),
+                                     "beyond/utils/interp.py (Interp._lagrange window) and beyond/orbits/ephem.py (DEFAULT_ORDER)"))
+    part(lambda: py2lean.instantiate(core.LEAN, "InterpLag", formula_source(),
+                                     "beyond/utils/interp.py (Interp._lagrange guard and formula, Interp._linear, Interp.__call__ range test)", imports=("Model.NpArr",)))
+    part(lambda: ["Generated/EphemSrc.lean"] if core.write_if_changed(os.path.join(core.LEAN, "BeyondVerif", "Generated", "EphemSrc.lean"), ephem_source()) else [])
     ch += instantiate.main()
+    if errors:
+        ctx.say(f"[{ID}] extract: regenerated {ch}; refused: {[repr(e)[:200] for e in errors]}")
+        raise errors[0]
     return ch
 
 
@@ -346,7 +698,7 @@ def correspondence(ctx):
             {"xs": xs, "ys": ys, "x": x, "method": method, "order": order}, scale=scale, method=method)
         out.count(key=reqs[-1], nontrivial=kind == "ok", kind=f"call-{method}-{pos}", result=kind, variant=variant, order=order, style=style)
     # 4. Ephem objects: construction order, default method / order, frame + form of the result, conversion after a first interpolation
-    for _ in range(ctx.n(250, 4000)):
+    for _ in range(ctx.n(400, 6000)):
         eph_case(out, rng, add)
     replies = core.Driver(ID).run(reqs)
     for req, (kind, real, inp, kw), rep in zip(reqs, meta, replies):
@@ -394,10 +746,13 @@ def compare(out, kind, real, rep, inp, kw):
                 return
             if rk != "ok":
                 continue
-            if [toks[1], toks[2]] != rlabel[:2] or b2f(toks[3]) != rlabel[2]:
-                out.fail("ephem-label", "form / frame / date of the interpolated point differ", inp, observed=rlabel, expected=toks[1:4])
+            if toks[1] != rlabel[0]:
+                out.fail("ephem-identity", "the reply is a recorded point of the ephemeris (rec) / a new object (new): real code and Lean model differ", inp, observed=rlabel[0], expected=toks[1])
                 return
-            mv = [b2f(t) for t in toks[4:]]
+            if [toks[2], toks[3]] != rlabel[1:3] or b2f(toks[4]) != rlabel[3]:
+                out.fail("ephem-label", "form / frame / date of the reply differ", inp, observed=rlabel, expected=toks[1:5])
+                return
+            mv = [b2f(t) for t in toks[5:]]
             sc = kw["scale"]
             if len(mv) != len(rv) or not all(core.close(a, b, rtol=1e-10, atol=1e-300, scale=sc[c] if kw["lagrange"] else max(abs(a), abs(b))) for c, (a, b) in enumerate(zip(rv, mv))):
                 out.fail("ephem-value", "coordinates differ between Ephem.interpolate and the Lean model", inp, observed=rv, expected=mv)
@@ -405,8 +760,12 @@ def compare(out, kind, real, rep, inp, kw):
 
 
 def eph_case(out, rng, add):
+    """one random history on one Ephem object, replayed on the Lean state machine `EphH`:
+    I interpolate / P propagate / T iter(dates=…) / S iter(start, stop, step) (= propagate at every date) / G ephem[i] /
+    W in-place modification by the caller of an object it received / O, M order and method setters / C frame or form setter"""
     import numpy as np
     from beyond.dates import timedelta
+    from beyond.orbits import Ephem
     d0 = base_date()
     order = rng.choice([None, None, 2, 3, 5, 8, 8, 11, 12])
     eff = 8 if order is None else order
@@ -414,9 +773,9 @@ def eph_case(out, rng, add):
     method = rng.choice([None, None, "lagrange", "linear"])
     times, step, uniform = gen_times(rng, n)
     hetero = rng.random() < 0.15
-    kep, period, sma, ecc = kepler_ephem(rng)
-    scenario = rng.choice(["plain", "setters", "setters", "convert-form", "convert-frame"]) if not hetero else "plain"
-    if scenario in ("plain", "setters"):
+    scenario = rng.choice(["plain", "setters", "setters", "convert-form", "convert-frame", "objects", "objects", "objects", "objects"]) if not hetero else "plain"
+    keplerian = scenario.startswith("convert") or (scenario == "objects" and rng.random() < 0.5)
+    if not keplerian:
         coords = [[rng.uniform(-1, 1) * (7e6 if c < 3 else 7e3) for c in range(6)] for _ in range(n)]
         forms = [rng.choice(["cartesian", "keplerian"]) for _ in range(n)] if hetero else [rng.choice(["cartesian", "keplerian", "spherical"])] * n
         frames = [rng.choice(["EME2000", "ITRF"]) for _ in range(n)] if hetero else [rng.choice(["EME2000", "MOD", "ITRF"])] * n
@@ -424,8 +783,8 @@ def eph_case(out, rng, add):
         given = list(eph._orbits)
         rng.shuffle(given)     # the model receives the points in an arbitrary order as well and sorts them itself
     else:
+        kep, period, sma, ecc = kepler_ephem(rng)
         pts = [kep.propagate(d0 + timedelta(seconds=t)).copy(form="cartesian") for t in times]
-        from beyond.orbits import Ephem
         eph = Ephem(pts, method=method, order=order)
         given = list(eph._orbits)
 
@@ -435,59 +794,117 @@ def eph_case(out, rng, add):
     toks = ["c9eph", {None: "none", "lagrange": "g", "linear": "l"}[method], "none" if order is None else str(order), str(n), "6"]
     for o in given:
         toks += pt_tokens(o)
-    real = []
-    nq = rng.randint(1, 3)
-    ysnap = np.array([np.asarray(o, dtype=float) for o in eph._orbits])
-    xsnap = [o.date._mjd for o in eph._orbits]
+    real, objs, kinds, trace = [], [], [], []
+    amax = [np.abs(np.array([np.asarray(o, dtype=float) for o in eph._orbits])).max(axis=0)]
 
-    def do_interp(t):
-        from beyond.utils.interp import Interp
-        dq = d0 + timedelta(seconds=t)
-        kind, r = error_kind(lambda: eph.interpolate(dq))
-        toks.extend(["I", f2b(dq._mjd)])
+    def reply(kind, r):
+        """record the reply of the real object in the driver's format; `new` = none of the recorded points"""
+        kinds.append(kind)
         if kind == "ok":
-            real.append(("ok", [str(r.form), str(r.frame), r.date._mjd], [float(v) for v in np.asarray(r, dtype=float)]))
+            isrec = any(r is o for o in eph._orbits)
+            real.append(("ok", ["rec" if isrec else "new", str(r.form), str(r.frame), r.date._mjd], [float(v) for v in np.asarray(r, dtype=float)]))
+            objs.append(r)
         else:
             real.append((kind, None, None))
-        return kind
+            objs.append(None)
 
-    qs = []
-    for _ in range(nq):
+    def query():
         if n >= 2 and rng.random() < 0.85:
-            t, pos = gen_query(rng, times)
+            return gen_query(rng, times)
+        return rng.choice([(q(times[0] - 1.0), "outside"), (q(times[-1] + 0.5), "outside"), (times[0], "node"), (times[-1], "node")])
+
+    def op_interp(t, via):
+        dq = d0 + timedelta(seconds=t)
+        sc = rng.choice(["UTC", "UTC", "TAI", "TT", "GPS"])      # the same instant expressed in another time scale
+        if sc != "UTC":
+            dq = dq.change_scale(sc)
+        out.tally("ephem-query-scale=" + sc)
+        if via == "T":          # iter(dates=…) is propagate at every date
+            kind, r = error_kind(lambda: list(eph.iter(dates=[dq])))
+            r = r[0] if kind == "ok" else r
         else:
-            t, pos = rng.choice([(q(times[0] - 1.0), "outside"), (q(times[-1] + 0.5), "outside"), (times[0], "node")])
-        qs.append((t, pos))
-    kinds = []
+            kind, r = error_kind(lambda: (eph.interpolate if via == "I" else eph.propagate)(dq))
+        toks.extend(["I" if via == "I" else "P", f2b(dq._mjd)])
+        trace.append(via)
+        reply(kind, r)
+
     any_lagrange = method in (None, "lagrange")
-    if scenario != "setters" or rng.random() < 0.75:      # setters are also exercised before the first interpolation
-        kinds.append(do_interp(qs[0][0]))
-    if scenario == "setters":
-        for _ in range(rng.randint(1, 2)):
+    first = query()
+    nops = rng.randint(2, 6)
+    for k in range(nops):
+        r = rng.random()
+        if scenario == "plain" or r < 0.45 or (k == nops - 1):
+            t, pos = first if (k == nops - 1 and scenario != "plain") else query()
+            op_interp(t, rng.choice(["I", "I", "I", "P", "T"]))
+        elif scenario == "setters":
             if rng.random() < 0.7:
                 k2 = rng.choice([2, 3, 4, 7, 8, 9, 12, rng.randint(1, 12)])
                 eph.order = k2
                 toks.extend(["O", str(k2)])
+                trace.append("O")
             else:
                 m2 = rng.choice(["lagrange", "linear"])
                 eph.method = m2
                 toks.extend(["M", "g" if m2 == "lagrange" else "l"])
                 any_lagrange = any_lagrange or m2 == "lagrange"
-    elif scenario != "plain":
-        if scenario == "convert-form":
-            eph.form = rng.choice(["keplerian", "spherical"])
-        else:
-            eph.frame = rng.choice(["ITRF", "MOD", "TEME"])
-        toks.append("C")
-        for o in eph._orbits:
-            toks += pt_tokens(o)
-    for t, pos in qs[1:] + ([qs[0]] if scenario != "plain" else []):
-        kinds.append(do_interp(t))
-    scale = [float(np.max(np.abs(ysnap[:, c]))) * 1e3 for c in range(6)]   # |l_j| sum bounded by ~1e3 up to order 12 inside the table
-    add(" ".join(toks), "eph", real, {"times": times, "order": order, "method": method, "scenario": scenario, "queries": qs}, scale=scale,
+                trace.append("M")
+        elif scenario.startswith("convert"):
+            if scenario == "convert-form":
+                eph.form = rng.choice(["keplerian", "spherical", "cartesian"])
+            else:
+                eph.frame = rng.choice(["ITRF", "MOD", "TEME", "EME2000"])
+            toks.append("C")
+            for o in eph._orbits:
+                toks += pt_tokens(o)
+            trace.append("C")
+            amax.append(np.abs(np.array([np.asarray(o, dtype=float) for o in eph._orbits])).max(axis=0))
+        else:   # objects: index reads, a stepped iteration, in-place modifications of received objects
+            r2 = rng.random()
+            held = [j for j, o in enumerate(objs) if o is not None]
+            if r2 < 0.2:
+                i = rng.choice([0, -1, n - 1, rng.randrange(-n - 1, n + 1)])
+                kind, r = error_kind(lambda: eph[i])
+                toks.extend(["G", str(i)])
+                trace.append("G")
+                reply(kind, r)
+            elif r2 < 0.3 and n >= 2:
+                i = rng.randrange(n - 1)
+                st = q((times[i + 1] - times[i]) * rng.choice([0.5, 0.25, 1.0]))
+                kind, r = error_kind(lambda: list(eph.iter(start=d0 + timedelta(seconds=times[i]), stop=d0 + timedelta(seconds=times[i + 1]), step=timedelta(seconds=st))))
+                trace.append("S")
+                if kind == "ok":
+                    for o in r:
+                        toks.extend(["P", f2b(o.date._mjd)])
+                        reply("ok", o)
+                else:       # refused as a whole: the first date already is (the model says the same about it)
+                    toks.extend(["P", f2b((d0 + timedelta(seconds=times[i]))._mjd)])
+                    reply(kind, r)
+            elif held:
+                j = rng.choice(held)
+                o = objs[j]
+                how = rng.choice(["values", "values", "form", "frame"]) if keplerian else "values"
+                isrec = any(o is x for x in eph._orbits)
+                try:
+                    if how == "values":
+                        o[:] = np.asarray(o, dtype=float) * 1.5 + 1.0
+                    elif how == "form":
+                        o.form = "keplerian" if str(o.form) != "keplerian" else "cartesian"
+                    else:
+                        o.frame = "ITRF" if str(o.frame) != "ITRF" else "EME2000"
+                except Exception:  # noqa  a conversion that the library refuses changes nothing
+                    continue
+                toks.extend(["W", str(j)] + pt_tokens(o))
+                trace.append("W-rec-" + how if isrec else "W-new-" + how)
+                amax.append(np.abs(np.array([np.asarray(x, dtype=float) for x in eph._orbits])).max(axis=0))
+            else:
+                op_interp(*query()[:1], "I")
+    scale = [float(max(a[c] for a in amax)) * 1e3 for c in range(6)]   # |l_j| sum bounded by ~1e3 up to order 12 inside the table
+    add(" ".join(toks), "eph", real, {"times": times, "order": order, "method": method, "scenario": scenario, "history": trace}, scale=scale,
         lagrange=any_lagrange)
-    out.count(key=" ".join(toks[:40]) + str(qs) + " ".join(t for t in toks if t in ("O", "M")), nontrivial="ok" in kinds, kind="ephem-" + scenario, method=method, order=order, hetero=hetero,
-              results="+".join(kinds))
+    for t in trace:
+        out.tally("ephem-op=" + t)
+    out.count(key=" ".join(toks[:40]) + " ".join(trace) + str(len(toks)), nontrivial="ok" in kinds, kind="ephem-" + scenario, method=method, order=order, hetero=hetero,
+              results="+".join(sorted(set(kinds))), history_len=len(trace))
 
 # ---------------------------------------------------------------- oracle on the real API
 
@@ -687,6 +1104,10 @@ def oracle(ctx, widened):
     for _ in range(300 if big else 40):
         setter_case(out, rng)
 
+    # ---- 3d. what the ephemeris hands out is a new object: modifying it in place never reaches the table
+    for _ in range(400 if big else 50):
+        alias_case(out, rng)
+
     # ---- 4. a smooth orbit sampled well below its period: centimetres, at the ends as in the middle
     for _ in range(150 if big else 20):
         orbit_case(out, rng)
@@ -790,6 +1211,72 @@ def scale_case(out, rng):
                          inp, observed=a.tolist(), expected=b.tolist())
             elif not (r.date == dq if exact else abs((r.date - dq).total_seconds()) <= 2e-6):
                 out.fail(f"scale-dependence/{sc}/date", "the interpolated point is not dated at the requested instant", inp, observed=str(r.date), expected=str(dq))
+
+
+def alias_case(out, rng):
+    """get a point from the ephemeris through every API that computes one (interpolate, propagate, iter(dates=…), iter(step=…),
+    iter() without step, ephem()), at a node or between nodes; it must be none of the recorded objects, and converting / overwriting
+    it in place must leave the table and every later answer unchanged"""
+    import numpy as np
+    from beyond.orbits import Ephem
+    from beyond.dates import timedelta
+    d0 = base_date()
+    kep, period, sma, ecc = kepler_ephem(rng)
+    method = rng.choice(["lagrange", "lagrange", "linear"])
+    order = rng.choice([2, 3, 8, 8, 9])
+    n = rng.randint(max(order, 3), 20)
+    step = q(period / 100, 1.0)
+    times = [q(i * step) for i in range(n)]
+    pts = [kep.propagate(d0 + timedelta(seconds=t)).copy(form="cartesian") for t in times]
+    eph = Ephem(pts, method=method, order=order)
+    warm = rng.random() < 0.5
+    if warm:
+        error_kind(lambda: eph.interpolate(d0 + timedelta(seconds=gen_query(rng, times, "interior")[0])))
+    api = rng.choice(["interpolate", "interpolate", "propagate", "iter-dates", "iter-step", "iter-plain", "ephem"])
+    where = rng.choice(["node", "node", "first-node", "last-node", "interior", "first", "last"])
+    j = 0 if where == "first-node" else n - 1 if where == "last-node" else rng.randrange(n)
+    t, pos = (times[j], "node") if where.endswith("node") else gen_query(rng, times, where)
+    if api in ("iter-plain", "ephem"):
+        t, pos = times[j], "node"
+    dq = d0 + timedelta(seconds=t)
+    inp = {"kep": list(map(float, kep)), "times": times, "t": t, "method": method, "order": order, "api": api, "interpolated_before": warm}
+    get = {"interpolate": lambda: eph.interpolate(dq), "propagate": lambda: eph.propagate(dq),
+           "iter-dates": lambda: list(eph.iter(dates=[dq]))[0],
+           "iter-step": lambda: list(eph.iter(start=dq, stop=dq, step=timedelta(seconds=step)))[0],
+           "iter-plain": lambda: [o for o in eph.iter() if o.date == dq][0],
+           "ephem": lambda: [o for o in eph.ephem() if o.date == dq][0]}[api]
+    r = guarded(out, f"inside-refused/{api}/{pos}", inp, get)
+    if r is None:
+        return
+    out.count(key=("alias", api, method, order, sma, t, warm), kind=f"new-object-{api}-{pos}", method=method)
+    if any(r is o for o in eph._orbits):
+        out.fail(f"result-is-recorded-point/{api}/{pos}", f"Ephem.{api} hands out the recorded point itself, not a new object", inp,
+                 observed="the very element of the table", expected="a new object")
+        return
+    snap = [(np.array(o, dtype=float), str(o.form), str(o.frame), o.date) for o in eph._orbits]
+    before = guarded(out, f"inside-refused/{api}/{pos}", inp, lambda: eph.interpolate(dq))
+    t2, pos2 = gen_query(rng, times, "interior")
+    before2 = guarded(out, f"inside-refused/interpolate/{pos2}", inp, lambda: eph.interpolate(d0 + timedelta(seconds=t2)))
+    if before is None or before2 is None:
+        return
+    how = rng.choice(["form", "frame", "values"])
+    if how == "form":
+        r.form = "keplerian"
+    elif how == "frame":
+        r.frame = "ITRF"
+    else:
+        r[:] = np.asarray(r, dtype=float) * 2.0 + 1.0
+    same_table = all(np.array_equal(np.asarray(o, dtype=float), a) and str(o.form) == fo and str(o.frame) == fr and o.date == da
+                     for o, (a, fo, fr, da) in zip(eph._orbits, snap))
+    after = guarded(out, f"inside-refused/{api}/{pos}", inp, lambda: eph.interpolate(dq))
+    after2 = guarded(out, f"inside-refused/interpolate/{pos2}", inp, lambda: eph.interpolate(d0 + timedelta(seconds=t2)))
+    if after is None or after2 is None:
+        return
+    same_answer = all(np.array_equal(np.asarray(a, dtype=float), np.asarray(b, dtype=float)) and str(a.form) == str(b.form) and str(a.frame) == str(b.frame)
+                      for a, b in ((before, after), (before2, after2)))
+    if not (same_table and same_answer):
+        out.fail(f"result-aliases-table/{api}/{how}", f"changing in place ({how}) the point received from Ephem.{api} changes the ephemeris", dict(inp, t2=t2),
+                 observed={"table_unchanged": same_table, "answers_unchanged": same_answer}, expected="table and answers unchanged")
 
 
 def setter_case(out, rng):
